@@ -244,6 +244,19 @@ def real_runs(rep, rng, tier):
             if len(tms) != len(ft) or np.max(np.abs(tms - np.array(ft))) > 1e-12:
                 rep.violation("Solution.times differ from the recorded frame times",
                               {"save_every": k, "solve_time": T, "times": tms.tolist()[:6], "frame_times": ft[:6]})
+            # the solution looked at through another recorded frame (solve_step set, or loaded with solve_step=j): its times and
+            # per-step records are still those of the whole run
+            for j_ in sorted({0, len(ft) // 2, len(ft) - 2} & set(range(len(ft)))):
+                alt = tdgl.Solution.from_hdf5(sol.path, solve_step=j_)
+                sol.solve_step = j_
+                for nm_, s_ in (("loaded with solve_step", alt), ("after setting solve_step", sol)):
+                    if len(s_.times) != len(ft) or np.max(np.abs(np.asarray(s_.times) - np.array(ft))) > 1e-12 or len(s_.dynamics.dt) != nupd:
+                        rep.violation("a solution positioned at a recorded frame other than the last one no longer reports the frame times / "
+                                      "per-step records of the whole run", {"save_every": k, "solve_time": T, "frame": j_, "how": nm_,
+                                                                            "times_reported": len(s_.times), "frames": len(ft),
+                                                                            "records": len(s_.dynamics.dt), "updates": nupd})
+                        break
+            sol.solve_step = -1
             # per-step records: one per update, in order - dt, and the potential / phase at the probe points of the state
             # that update produced
             dyn = sol.dynamics
